@@ -68,6 +68,15 @@ func (l CLine) render(v, y string) string {
 			d = onlyDigits(v)
 		}
 		return p[0] + "setvar:tx.crs_setup_version=" + d + p[1]
+	case "ver+setup":
+		// a compact one-line rule carrying two marker kinds
+		d := onlyDigits(l.V)
+		if v != "" {
+			d = onlyDigits(v)
+		}
+		return `SecAction "id:900990,phase:1,nolog,pass,ver:'OWASP_CRS/` + ver + `',setvar:tx.crs_setup_version=` + d + `"`
+	case "ver+ver":
+		return `SecRule ARGS "@rx x" "id:1,ver:'OWASP_CRS/` + ver + `',chain" # ver:'OWASP_CRS/` + ver + `'`
 	}
 	return l.T
 }
@@ -107,6 +116,8 @@ func genCFile(t *rapid.T, path string, setup bool) CFile {
 			f.Lines = append(f.Lines, CLine{K: "ver", T: rapid.SampledFrom([]string{"    \x00,\\", "    \x00\"", "    tag:'x',\x00,\\", "    \x00,severity:'CRITICAL'\""}).Draw(t, "verctx"), V: initial})
 		case k == 2:
 			f.Lines = append(f.Lines, CLine{K: "sig", V: initial})
+		case k == 4:
+			f.Lines = append(f.Lines, CLine{K: rapid.SampledFrom([]string{"ver+setup", "ver+ver"}).Draw(t, "combo"), V: initial})
 		case k == 3 && setup:
 			f.Lines = append(f.Lines, CLine{K: "setup", T: rapid.SampledFrom([]string{"    \x00\"", "    \x00,\\", "  \x00,setvar:tx.a=1\""}).Draw(t, "setupctx"), V: onlyDigits(initial)})
 		default:
